@@ -36,6 +36,10 @@ def run(ctx):
     r96(ctx, api)
     r97(ctx, wr)
     from . import callsigs as _cs
+    from . import findings3 as _f3
+    _f3.append_layouts(ctx, 'R9.13')
+    _f3.removal_check(ctx, 'R9.14')
+    _f3.partition_text(ctx, 'R9.15')
     _cs.general_rules(ctx, 'R9', ['writer.write', 'writer.overwrite', 'writer.merge', 'writer.write_multi', 'writer.partition_on_columns', 'api.ParquetFile.write_row_groups', 'api.ParquetFile.remove_row_groups', 'api.ParquetFile._sort_part_names', 'api.ParquetFile._write_common_metadata', 'writer.write_common_metadata', 'writer.consolidate_categories'])
 
 
